@@ -29,7 +29,7 @@ def make_items(rng, profile, n, schedules):
         wf, oc, script, inp = gen.gen_workflow(rng, profile)
         for k in range(schedules):
             sch = gen.noise_schedule(rng, max_us=rng.choice([100, 400, 1500]), pct=rng.choice([20, 40]))
-            items.append({'wf': wf, 'oc': oc, 'script': script, 'input': inp, 'schedule': sch})
+            items.append({'wf': wf, 'oc': oc, 'script': script, 'input': inp, 'schedule': sch, 'pure': not profile.get('impure')})
     return items
 
 
